@@ -64,6 +64,10 @@ CHECKS = {
                 technique="exhaustive enumeration of a stated mutation and grammar space (not sampling): every single structure-aware corruption of four base traces and every stream of 2/3 atoms from 40 valid/malformed event encodings, through ovniemu, ovnidump, ovnitop and ovnisort built with AddressSanitizer+UBSan; stream.c compiled with -Dmmap=verif_mmap so the stream lives in an exact-size heap buffer",
                 text="For every case of the space each of the four tools must terminate within 8 s with exit status 0 or 1, without signal and without sanitizer report. The space: C12's operators plus all flag bytes, clock bytes, 13 abusive jumbo size fields, cut/unterminated jumbo data, events stripped of payload, phantom payloads, abusive loom_cpus shapes and metadata values, non-object/deeply nested JSON, missing/empty stream.obs, and all 1600 (quick) / 24000 (thorough) atom sequences after a valid prefix. The claim covers this space, not all byte strings.",
                 note="Trusted: ASan/UBSan (signed-integer-overflow excluded: arithmetic on garbage clocks is outside the property), the -Dmmap wrapper (harness/mmap_heap.c). die()->abort() counts as a crash."),
+    "C20": dict(level="model_checking", engine="E4 sort_check + E3 emu_server -b", ref="DESIGN.md 5 (C20)",
+                technique="exhaustive in-process enumeration of sort_replace inputs and of the sort module's input-vector graph (real bay, single and simultaneous changes), plus breadth-first explicit-state search of the real emulator with -b comparing breakdown rows with the sorted per-CPU values",
+                text="sort_replace on every sorted array of length <= 5/7 over {0..3} x every replacement (guards detect writes outside the array); the sort module on every input vector of 2-4(5) inputs over {null,1,2,3} x every set of 1..k simultaneous input changes: outputs equal the sorted inputs, changed outputs are emitted and unchanged ones not rewritten; end to end for nOS-V and Nanos6 with -b on 3 physical CPUs: all implementation states within depth 5/7 of affinity changes, pause/resume, task execute/end/pause/resume of two task types, a subsystem enter/leave and progress states: the breakdown rows must be the non-decreasing list of the per-CPU values derived from cpu.prv.",
+                note="Trusted: the rule deriving a CPU's breakdown value from its displayed rows (property statement); a paused task with the body region open may show nothing or the subsystem. Depth-bounded."),
 }
 
 ORDER = ["C%02d" % i for i in range(1, 21)]
@@ -98,7 +102,7 @@ def main():
                   "baseline_off_cmd": "cmake --build /repo/_build && ctest --test-dir /repo/_build -j8 --timeout 900",
                   "source_commits": [], "add_only": True},
         "engines": [
-            {"name": "E3 emu_server", "path": "harness/emu_server.c", "serves_properties": ["C04", "C05", "C06", "C07", "C08", "C17", "C18"],
+            {"name": "E3 emu_server", "path": "harness/emu_server.c", "serves_properties": ["C04", "C05", "C06", "C07", "C08", "C17", "C18", "C20"],
              "kind_free_text": "the unmodified emulator as a fork-checkpoint exploration server; Python BFS over (model state, implementation hash)"},
             {"name": "E1 rt_driver", "path": "harness/rt_driver.c", "serves_properties": ["C01", "C02"],
              "kind_free_text": "libovni compiled into the driver from the working tree (OVNI_MAX_EV_BUF overridable), interposed clock/write/abort; Python enumerates programs over buffer fill levels"},
